@@ -121,6 +121,7 @@ let outs : (int, n list) Hashtbl.t = Hashtbl.create 8
 (* ---------- storage (L3) ---------- *)
 let st : storage ref = ref init_storage
 let st_k = ref 4
+let blob_version_patched_ref = ref false
 let st_key_le = ref false   (* cfg order=le: the index probe's key type is ordered as a little-endian number *)
 let st_cfg = ref { c_dup = true; c_maxrec = n_of_int 1000000; c_maxsize = n_of_int 1000000000 }
 let tainted_ref = ref false
@@ -210,7 +211,7 @@ let cmd_cfg args =
       | ["bloombits"; v] -> st_bloom_bits := Some (int_of_string v)
       | ["validate"; v] -> st_validate := (v = "1")
       | ["ignore"; v] -> st_ignore := (v = "1")
-      | ["nomodel"; "1"] -> tainted_ref := true
+      | ["nomodel"; "1"] -> tainted_ref := true; blob_version_patched_ref := true    (* no model state: tool outputs are not predicted either *)
       | _ -> ()) args;
   emit "cfg"
 
@@ -317,6 +318,7 @@ let storage_handlers = [
   ("cfgnext", (function [kv] -> (match String.split_on_char '=' kv with ["init"; v] -> st_lazy := (v = "lazy") | _ -> ()); emit "cfgnext" | _ -> emit "cfgnext"));
   ("flip", (fun _ -> emit "*"));
   ("patch", (function
+       | ["blob"; _; "8"; _] -> blob_version_patched_ref := true; tainted_ref := true; emit "*"
        | ["index"; id; pos; hex] when not !tainted_ref && filters_known () ->
          (* header fields that validation checks: magic (0), written flag + version (72), key size (73), blob size (75) *)
          let pos = int_of_string pos in
@@ -643,6 +645,7 @@ let image_of id =
      | [] -> None)
 (* the tools' reader accepts a metadata image iff Format/Meta.v meta_ok does (decodes, takes exactly its bytes) *)
 let meta_ok (m : n list) = meta_ok m
+let blob_version_patched = blob_version_patched_ref
 let cmd_flip = function
   | ["blob"; id; pos; mask] ->
     let id = int_of_string id and pos = int_of_string pos and mask = int_of_string ("0x" ^ mask) in
@@ -663,12 +666,14 @@ let cmd_tool = function
         | Some o -> Hashtbl.replace outs (int_of_string id) o; emit (Printf.sprintf "tool recover ok %d" (List.length o))
         | None -> emit "tool recover Err")
      | None -> emit "tool recover Err")
+  | ["validate_out"; _] when !blob_version_patched -> emit "*"
   | ["validate_out"; id] ->
     (match Hashtbl.find_opt outs (int_of_string id) with
      | Some b -> emit ("tool validate_out " ^ (if tool_validate_blob meta_ok b then "ok" else "Err"))
      | None -> emit "tool validate_out Err")
   | ["outhex"; id] ->
     (match Hashtbl.find_opt outs (int_of_string id) with Some b -> emit ("tool outhex " ^ hex_of_bytes b) | None -> emit "tool outhex absent")
+  | ["migrate"; _; _] when !blob_version_patched -> emit "*"    (* a blob of another format version: migration proper is not modelled *)
   | ["migrate"; id; _target] ->
     (* current-version blob: migration is the re-serialising copy without skipping *)
     (match image_of (int_of_string id) with
@@ -722,7 +727,7 @@ let main () =
   let n = Array.length Sys.argv in
   let i = ref 1 in
   while !i + 1 < n do
-    tainted := false; hard_taint := false; auto_q := true; Hashtbl.reset damaged_idx; st_ignore := false; st_group := 2; st_bloom_cfg := None; st_bloom_bits := None; hier_tr := ch_new (nat_of_int 2); hier_valid := true; Hashtbl.reset images; Hashtbl.reset outs; pending_evs := []; Hashtbl.reset probes; Hashtbl.reset blooms; Hashtbl.reset raws; st := init_storage; st_k := 4; st_key_le := false; st_lazy := false; st_validate := false;
+    tainted := false; hard_taint := false; auto_q := true; Hashtbl.reset damaged_idx; st_ignore := false; st_group := 2; st_bloom_cfg := None; st_bloom_bits := None; hier_tr := ch_new (nat_of_int 2); hier_valid := true; Hashtbl.reset images; Hashtbl.reset outs; pending_evs := []; Hashtbl.reset probes; Hashtbl.reset blooms; Hashtbl.reset raws; st := init_storage; st_k := 4; st_key_le := false; blob_version_patched_ref := false; st_lazy := false; st_validate := false;
     st_cfg := { c_dup = true; c_maxrec = n_of_int 1000000; c_maxsize = n_of_int 1000000000 };
     run_script Sys.argv.(!i) Sys.argv.(!i + 1);
     i := !i + 2
